@@ -157,6 +157,18 @@ pub fn rand_perm(n: usize, rng: &mut StdRng) -> Vec<usize> {
     r
 }
 
+/// streaming version for very large case files
+pub fn for_each_line(path: &str, mut f: impl FnMut(Value)) {
+    use std::io::BufRead;
+    let file = std::io::BufReader::new(std::fs::File::open(path).expect("open cases"));
+    for l in file.lines() {
+        let l = l.expect("read line");
+        if l.trim().is_empty() { continue; }
+        let v: Value = serde_json::from_str(&l).expect("json");
+        f(if let Value::String(inner) = &v { serde_json::from_str(inner).expect("inner json") } else { v });
+    }
+}
+
 pub fn read_lines(path: &str) -> Vec<Value> {
     let s = std::fs::read_to_string(path).expect("read cases");
     s.lines()
